@@ -20,6 +20,8 @@ def run(ctx, R, tier):
     cancel(F, R)
     tween(F, R)
     clock_rules(F, R)
+    from .c06 import ungated
+    ungated(F, R, rule='B.C05.speed-ungated')
     torn(F, R)
 
 
